@@ -41,12 +41,15 @@ Props(stage, clause) ==
     [] stage = "Reset.fields"                        -> {"C08"}
     [] stage = "DayEnd.partition"                    -> {"C02"}
     [] stage = "RainPartition" /\ clause \in {"roSign", "roLeP", "split", "blocked"} -> {"C02"}
+    [] stage = "Infiltrate" /\ clause = "effOfConfig" -> {"C02", "C20"}
     [] stage = "DayEnd.bounds"                       -> {"C03"}
     [] stage = "Init.bounds" /\ clause = "pond"      -> {"C03"}
+    [] stage = "Init.config" /\ clause = "irr"        -> {"C13"}
+    [] stage = "Init.config"                         -> {"C02", "C03"}
     [] stage = "DayEnd.signs"                        -> {"C04"}
     [] stage = "Evaporate" /\ clause \in {"potSign", "sign", "lePot"} -> {"C04"}
     [] stage = "Transpire" /\ clause \in {"sign", "lePot", "offSeason"} -> {"C04"}
-    [] stage = "Transpire" /\ clause = "netOnly"     -> {"C13"}
+    [] stage = "Transpire" /\ clause \in {"netOnly", "methodOfConfig"} -> {"C13"}
     [] stage = "DayEnd.envelope" /\ clause = "gddExact" -> {"C05", "C17"}
     [] stage = "DayEnd.envelope" /\ clause = "finite"   -> {"C05", "C16"}
     [] stage = "DayEnd.envelope"                     -> {"C05"}
@@ -94,7 +97,7 @@ St0 == [ws |-> [W |-> <<>>, pond |-> Z], fcAdj |-> <<>>, begin |-> [W |-> <<>>, 
                  finished |-> FALSE, nStats |-> 0],
         d |-> ZeroLedger, prev |-> [gddCum |-> Z, zroot |-> Z, hi |-> Z, hiadj |-> Z, b |-> Z, bns |-> Z],
         crop |-> [calendarType |-> 1], phash |-> [none |-> 0], seasonIrr |-> Z, irrSeason |-> -1,
-        stage |-> 0, ccadj |-> Z, ic0 |-> [none |-> 0], germ |-> FALSE, delayedCds |-> Z, delayedGdds |-> Z, irrCum |-> Z, exp |-> [none |-> 0], alive |-> TRUE, statIrr |-> Z, hasStat |-> FALSE]
+        stage |-> 0, ccadj |-> Z, ic0 |-> [none |-> 0], germ |-> FALSE, delayedCds |-> Z, delayedGdds |-> Z, irrCum |-> Z, exp |-> [none |-> 0], alive |-> TRUE, statIrr |-> Z, hasStat |-> FALSE, statKeys |-> <<>>]
 
 WsOf(s, e) == [W |-> IF Has(e, "W") THEN e.W ELSE s.ws.W, pond |-> IF Has(e, "pond") THEN e.pond ELSE s.ws.pond]
 
@@ -152,7 +155,15 @@ InitBoundsC(t, e) ==
   IN [ thRange |-> InBounds(k, ws),
        pond    |-> IF fm.effBunds THEN Eq(ws.pond, Min(fm.bundWater, fm.zBund)) ELSE IsZero(ws.pond) ]
 
-Chk_Initialize(t, s, e) == Tag("Init.dates", InitDatesC(t, e)) \cup Tag("Init.bounds", InitBoundsC(t, e))
+\* the management settings the time stepping works with are the ones the user specified (bund height in mm)
+InitConfigC(t) ==
+  LET c == Cfg(t) IN
+  IF Has(c, "user")
+  THEN [ irr    |-> \A k \in DOMAIN c.user.irr : c.built.irr[k] = c.user.irr[k],
+         field  |-> \A k \in DOMAIN c.user.field : c.built.field[k] = c.user.field[k],
+         fallow |-> \A k \in DOMAIN c.user.fallow : c.built.fallow[k] = c.user.fallow[k] ]
+  ELSE [ none |-> TRUE ]
+Chk_Initialize(t, s, e) == Tag("Init.dates", InitDatesC(t, e)) \cup Tag("Init.bounds", InitBoundsC(t, e)) \cup Tag("Init.config", InitConfigC(t))
 Upd_Initialize(t, s, e) ==
   [s EXCEPT !.ws = [W |-> e.W, pond |-> IF Has(e, "pond") THEN e.pond ELSE Z],
             !.fcAdj = Cfg(t).Wfc, !.clk = e.clock, !.phash = e.phash, !.crop = Cfg(t).crop0,
@@ -233,7 +244,8 @@ IrrigateAll(t, s, e) ==
   IrrigateC(IrrArgs(t, s, e)) @@
   [ \* the decision reads the configured strategy and parameters (fallow management before the first season)
     cfgMethod |-> inSeasonMgmt => (e.method = c.method /\ Eq(e.appEff, c.appEff) /\ Eq(e.maxIrr, c.maxIrr)
-                                   /\ Eq(e.maxSeason, c.maxSeason) /\ e.interval = c.interval /\ Eq(e.depth, c.depth)),
+                                   /\ Eq(e.maxSeason, c.maxSeason) /\ e.interval = c.interval /\ Eq(e.depth, c.depth)
+                                   /\ Len(e.smt) = Len(c.smt) /\ \A i \in 1..Len(c.smt) : Eq(e.smt[i], c.smt[i])),
     cfgFallow |-> (~inSeasonMgmt) => e.method = 0,
     gsAgrees  |-> e.gs = s.d.gs,
     dapAgrees |-> e.gs => e.dap = s.clk.dap + 1,
@@ -249,7 +261,11 @@ InfArgs(t, s, e) ==
    bunds |-> e.bunds /\ Gt(e.zBund, Milli(1)), zBund |-> e.zBund, ksat1 |-> e.ksat1,
    dp0 |-> e.dp0, runoff0 |-> e.runoff0, dp |-> e.dp, runoff |-> e.runoff, infl |-> e.infl]
 Chk_Infiltrate(t, s, e) == Tag("Infiltrate", InfiltrateC(K(t), s.ws, WsOf(s, e), InfArgs(t, s, e))
-                                @@ [ irrIsTodays |-> Eq(e.irr, s.d.irr) ])
+                                @@ [ irrIsTodays |-> Eq(e.irr, s.d.irr),
+                                     \* the efficiency applied to an irrigation is the CONFIGURED application efficiency
+                                     effOfConfig |-> (Gt(e.irr, Z) /\ s.clk.season >= 0) => Eq(e.appEff, Cfg(t).appEff),
+                                     mgmtOfToday |-> LET fm == Field(t, s.d.gs /\ s.clk.season >= 0)
+                                                     IN e.bunds = fm.bunds /\ Eq(e.zBund, fm.zBund) ])
 Upd_Infiltrate(t, s, e) == [s EXCEPT !.ws = WsOf(s, e), !.d = [s.d EXCEPT !.irrEff = InfArgs(t, s, e).irrEff]]
 
 \* ---- CapRise
@@ -300,7 +316,9 @@ TrArgs(t, s, e) == [tr |-> e.tr, trpot |-> e.trpot, irrnet |-> e.irrnet, gs |-> 
 TrPotCapC(t, s, e) == IF Has(s.crop, "Kcb") /\ Finite(e.trpot) /\ Finite(s.ccadj) /\ ~IsNeg(s.ccadj)
                       THEN [ potCap |-> LeTol(e.trpot, Mul(Mul(s.crop.Kcb, s.ccadj), s.d.ET0), Tol9) ]
                       ELSE [ none |-> TRUE ]
-Chk_Transpire(t, s, e) == Tag("Transpire", TranspC(K(t), s.ws, WsOf(s, e), TrArgs(t, s, e))) \cup Tag("Transpire.pot", TrPotCapC(t, s, e))
+Chk_Transpire(t, s, e) == Tag("Transpire", TranspC(K(t), s.ws, WsOf(s, e), TrArgs(t, s, e))
+                                            @@ [ methodOfConfig |-> (e.gs /\ s.clk.season >= 0) => e.method = Cfg(t).method ])
+                          \cup Tag("Transpire.pot", TrPotCapC(t, s, e))
 Upd_Transpire(t, s, e) == [s EXCEPT !.ws = WsOf(s, e), !.d = [s.d EXCEPT !.tr = e.tr]]
 FirstBelow(t, z) == LET S == {i \in 1..Cfg(t).N : Ge(Cfg(t).zmidProf[i], z)} IN IF S = {} THEN 0 ELSE MinOf(S)
 GwArgs(t, s, e) == [gwin |-> e.gwin, wtInSoil |-> e.wtInSoil, first |-> IF s.d.hasZ /\ ~TieAt(t, s.d.zgw) THEN FirstBelow(t, s.d.zgw) ELSE 0]
@@ -364,6 +382,11 @@ DayEndRowsC(t, s, e) ==
     dapFromPlanting |-> r.gs => r.dap = (Cfg(t).startDay + s.clk.tsc) - Plant(ClockCfg(t), s.clk.season) + 1,
     storIsState |-> e.storW = s.ws.W,
     pondIsState |-> Eq(e.flux.surface_storage, s.ws.pond) ]
+\* a summary row, once written, is never rewritten: one row per season, written on its harvest day only
+StatsFrozenC(s, e) ==
+  IF Has(e, "statKeys")
+  THEN [ frozen |-> Len(e.statKeys) >= Len(s.statKeys) /\ \A i \in 1..Len(s.statKeys) : e.statKeys[i] = s.statKeys[i] ]
+  ELSE [ noKeys |-> TRUE ]
 DayEndSummaryC(t, s, e) ==
   IF e.nStats = s.clk.nStats + 1 /\ Has(e, "lastStat")
   THEN LET x == e.lastStat IN
@@ -371,8 +394,8 @@ DayEndSummaryC(t, s, e) ==
          step    |-> x.step = s.clk.tsc,
          date    |-> x.harvDate = Cfg(t).startDay + s.clk.tsc + 1,
          yields  |-> x.hex[1] = e.yhex[1] /\ x.hex[2] = e.yhex[2] /\ x.hex[3] = e.yhex[3],
-         inOrder |-> x.season >= s.clk.nStats ]
-  ELSE [ none |-> e.nStats = s.clk.nStats \/ Has(e, "lastStat") ]
+         inOrder |-> x.season >= s.clk.nStats ] @@ StatsFrozenC(s, e)
+  ELSE [ none |-> e.nStats = s.clk.nStats \/ Has(e, "lastStat") ] @@ StatsFrozenC(s, e)
 DayEndIrrC(t, s, e) ==
   LET c == Cfg(t) f == e.flux m == IF s.clk.season >= 0 THEN c.method ELSE 0 IN
   [ offSeason |-> (~e.gs) => IsZero(f.IrrDay),
@@ -418,7 +441,8 @@ Upd_DayEnd(t, s, e) ==
   [s EXCEPT !.exp = r, !.stage = s.d.stageNow,
             !.seasonIrr = Add(s.seasonIrr, add),
             !.statIrr = IF newRow THEN e.lastStat.irr ELSE s.statIrr,
-            !.hasStat = s.hasStat \/ newRow]
+            !.hasStat = s.hasStat \/ newRow,
+            !.statKeys = IF Has(e, "statKeys") THEN e.statKeys ELSE s.statKeys]
 
 (***************************************************************************)
 (* Advance: check_model_is_finished + update_time (+ reset) against the      *)
